@@ -246,3 +246,5 @@ _p('C10', ['r_offsets', 'r_sorted'],
    'file index that is tested against 0 is not decremented where it can still be 0 (R-ZERODEC).',
    not_decided='row-by-row address exactness, range semantics and which search preference (inclusive/exclusive function end) is '
                'right for which attribute - DWARF semantics over concrete layouts, outside static reach (see DESIGN.md D10)')
+PROPERTIES['C17']['rules'] = ['r_arena', 'r_witness']
+PROPERTIES['C19']['rules'] = ['r_pushpair', 'r_emitorder', 'r_flow', 'r_segments', 'r_witness']
